@@ -552,6 +552,9 @@ func shapesFor(c cellT) []shapeT {
 		// first member that can read it
 		shapes = append(shapes, shapeT{"object-composed-members", `{"type":"object","properties":{"id":{"anyOf":[{"type":"integer"},{"type":"string"}]},"v":{"oneOf":[{"type":"boolean"},{"type":"number"}]}}}`,
 			labelSafe(c, []string{`{"id":"abc"}`, `{"id":7}`, `{"v":2.5}`, `{"id":"x-y_z","v":true}`, `{"id":-3,"v":0.5}`})})
+		// an object described in two halves: the value has the members of both
+		shapes = append(shapes, shapeT{"object-allOf-halves", `{"allOf":[{"type":"object","properties":{"i":{"type":"integer"}},"required":["i"]},{"type":"object","properties":{"s":{"type":"string"}}}]}`,
+			[]string{`{"i":1,"s":"a"}`, `{"i":2}`, `{"s":"abc"}`}})
 		shapes = append(shapes, shapeT{"object-additional", `{"type":"object","additionalProperties":{"type":"integer"}}`, []string{`{"x":1,"y":2}`, `{"k":-1}`}})
 	} else {
 		shapes = []shapeT{
@@ -564,6 +567,11 @@ func shapesFor(c cellT) []shapeT {
 				[]string{`{"l":[0,1,2,3,4,5,6,7,8,9,10]}`, `{"l":[0,1,2,3,4,5,6,7,8,9,10,11]}`}},
 			{"deep-composed-members", `{"type":"object","properties":{"id":{"anyOf":[{"type":"integer"},{"type":"string"}]},"v":{"oneOf":[{"type":"boolean"},{"type":"number"}]}}}`,
 				[]string{`{"id":"abc"}`, `{"id":7}`, `{"v":2.5}`, `{"id":"x-y_z","v":true}`}},
+			{"deep-allOf-halves", `{"allOf":[{"type":"object","properties":{"i":{"type":"integer"}},"required":["i"]},{"type":"object","properties":{"s":{"type":"string"}}}]}`,
+				[]string{`{"i":1,"s":"a"}`, `{"i":2}`, `{"s":"abc"}`}},
+			// declared members keep their own schema next to a schema for all the other names
+			{"deep-declared-and-additional", `{"type":"object","properties":{"i":{"type":"integer"}},"additionalProperties":{"type":"string"}}`,
+				[]string{`{"i":1,"k":"x"}`, `{"i":1}`, `{"k":"x"}`}},
 			{"deep-additional", `{"type":"object","additionalProperties":{"type":"object","properties":{"v":{"type":"integer"}}}}`, []string{`{"a":{"v":1},"b":{"v":2}}`}},
 		}
 	}
@@ -772,7 +780,7 @@ func gen(t *rapid.T) Case {
 		c.Neighbours = false
 	}
 	// a repeated key of another parameter: neutral for every shape that names its members
-	if cl.in == "query" && sh.name != "object-additional" && sh.name != "deep-additional" {
+	if cl.in == "query" && sh.name != "object-additional" && sh.name != "deep-additional" && sh.name != "deep-declared-and-additional" {
 		c.RepeatedNeighbour = rapid.IntRange(0, 3).Draw(t, "repeatedneighbour") == 0
 	}
 	return c
